@@ -239,9 +239,52 @@ def judge(chk: Check, prog, exp, res) -> None:
         bad = {k: v for k, v in r["after_residue"].items() if v}
         if bad:
             chk.violation(c, {"what": "residue-after-next-render", "residue": bad})
+    path_check(chk, prog, exp, res, case)
     if res.get("growth", 0) > 40:
         chk.violation(dict(case, fault=res.get("growth_point")), {"what": "memory-grows-on-repeated-failing-render",
                                                                   "objects_added_by_25_repeats": res["growth"]})
+
+
+def _chain(msg: str) -> Optional[tuple]:
+    """Component names of the path annotation, without the `Name(slot:x)` entries."""
+    first = msg.split("\n", 1)[0]
+    pre = "An error occured while rendering components "
+    if not first.startswith(pre) or not first.endswith(":"):
+        return None
+    return tuple(x for x in first[len(pre):-1].split(" > ") if "(slot:" not in x)
+
+
+def path_check(chk: Check, prog, exp, res, case) -> None:
+    """'annotated with the component path': the specification's instance tree (DjcSemantics `insts`: an instance
+    is an ancestor of another iff its position is a proper prefix) gives, for every rendered instance, the chain of
+    component names from the top-level component down to it.  Every instance has exactly one fault run at its
+    get_context_data, one at on_render_before and one at the tag that starts its template, so for each of these
+    kinds the multiset of annotated paths over the fault runs must equal the multiset of chains."""
+    from collections import Counter
+    insts = exp["insts"]
+    name = lambda c: f"{prog['mode'][0]}c{c}"          # noqa: E731
+    want = Counter()
+    for path, comp in insts:
+        anc = sorted((q, c) for q, c in insts if len(q) <= len(path) and path[:len(q)] == q)
+        anc.sort(key=lambda qc: len(qc[0]))
+        want[tuple(name(c) for _, c in anc)] += 1
+    for kind in ("gcd", "before", "tag"):
+        got = Counter()
+        n = 0
+        for r in res["faults"]:
+            if r.get("hang") or not r["log"] or r["log"][-1][0] != kind or r["err"] != r["exc_kind"]:
+                continue
+            n += 1
+            got[_chain(r["msg"])] += 1
+        if n != len(insts):
+            chk.add("path_check_skipped", 1)      # not one fault run per instance (a hook replaced content ...): no verdict
+            continue
+        chk.add("component_paths_compared", n)
+        if got != want:
+            chk.violation(dict(case, fault_kind=kind),
+                          {"what": "exception-annotated-with-wrong-component-path",
+                           "expected_paths": sorted(map(list, want.elements())), "observed_paths": sorted(str(x) for x in got.elements())})
+            return
 
 
 def body(chk: Check, *, n_programs: int, deep: int, machine: bool = True, mc_nodes: int = 2) -> None:
